@@ -1,4 +1,5 @@
 """C03 - Bash target preserves slice and string operation semantics."""
+import corpus
 import progflow
 
 RULE = ("direction A: TLC enumerates spec/FamC03.tla: strings of distinct characters of every length 0..7 (thorough 0..12) with ALL "
@@ -17,5 +18,6 @@ def run(ctx):
     failures = progflow.judge(ctx, fam, "fam")
     n = 150 if ctx.tier == "quick" else 2500
     failures += progflow.judge(ctx, progflow.generate(ctx, "slices", n), "gen")
+    failures += corpus.judge(ctx, "C03")
     progflow.report(ctx, failures)
     return ctx.finish(rule=RULE, assumptions=ASSUME)
